@@ -155,9 +155,19 @@ func workerMain(args []string) int {
 			// Shrinking must never lose the violation; fall back to the original.
 			small = sc
 			f2, _ = evalCandidate(e, small, f.Class, rctx)
+			if f2 == nil || f2.Class != f.Class {
+				// A violation that depends on what this process has not yet done (a
+				// process-wide cache being cold) cannot be shown twice in one process:
+				// show it once more in a fresh process, which is also how a replay runs.
+				f2, im2 = runFresh(e, small, rctx)
+				if im2 == "" && f2 != nil {
+					ctx.Count("violations_confirmed_in_fresh_process", 1)
+				}
+			}
 			if f2 == nil {
-				res.Infra = append(res.Infra, fmt.Sprintf("scenario %d: violation %s did not reproduce in-process", i, f.Class))
-				continue
+				// Still a violation observed once, with its full event log; keep it, marked.
+				f2 = &Finding{Class: f.Class, Detail: f.Detail + "\n(note: observed once in the worker process; it did not show again in this process or in a fresh one - the violation depends on the history of the process)"}
+				rctx.Log = append(rctx.Log[:0], ctx.Log...)
 			}
 		}
 		res.Violations = append(res.Violations, &Violation{
